@@ -124,6 +124,46 @@ def check_normalize(case):
     return fails, ("norm", path, lo, hi, _dig(g))
 
 
+HIST_OPS = [("recreate", "linfix", 2), ("interpolate_n", 7, "linear"), ("truncate_by_index", 1, None), ("truncate_by_index", 0, -1),
+            ("truncate_by_value", "absA"), ("append", False), ("repeat", 2), ("shift_x", 1.0), ("scale_x", 0.5), ("restore_original",)]
+
+
+@kind("pointwise-in-state")
+def check_pointwise_in_state(case):
+    """trend / shift / scale are the same pointwise maps of the CURRENT series in every state of a history"""
+    import copy
+    from checks import weaverops as WO
+    r = WO.Runner(WO.INITS[case["init"]])
+    for op in case["ops"]:
+        op = tuple(op)
+        if r.concretize(op) is None:
+            return [], ("skipped",)
+        r.apply(op)
+    gx, gy = r.wv.get()
+    fx, fy = [float(v) for v in gx], [float(v) for v in gy]
+    rng = fx[-1] - fx[0]
+    fails = []
+    key = {"path": "weaver-history"}
+    for name in ("t", "sin"):
+        for norm in (False, True):
+            w = copy.deepcopy(r.wv).trend(TRENDS[name], normalized=norm)
+            exp = [fy[i] + (TRENDS[name](fx[i] / rng) if norm else TRENDS[name](fx[i])) for i in range(len(fx))]
+            ox, oy = w.get()
+            if [float(v) for v in ox] != fx or [float(v) for v in oy] != exp:
+                fails.append(fail("trend-definition", {"f": name, "normalized": norm, "observed": oy, "expected": exp}, dict(key, normalized=norm)))
+                return fails, None
+    for op, v in (("shift_x", 1.5), ("shift_y", -2.0), ("scale_x", 2.0), ("scale_y", 3.0)):
+        w = copy.deepcopy(r.wv)
+        getattr(w, op)(v)
+        ox, oy = [float(t) for t in w.get()[0]], [float(t) for t in w.get()[1]]
+        ex = [t + v for t in fx] if op == "shift_x" else [t * v for t in fx] if op == "scale_x" else fx
+        ey = [t + v for t in fy] if op == "shift_y" else [t * v for t in fy] if op == "scale_y" else fy
+        if ox != ex or oy != ey:
+            fails.append(fail("pointwise-map", {"op": op, "observed": [ox, oy], "expected": [ex, ey]}, dict(key, op=op)))
+            return fails, None
+    return fails, (case["init"], tuple(tuple(o) for o in case["ops"]))
+
+
 def harnesses(tier, seed):
     quick = tier == "quick"
     grids = [g for k in (2, 3, 4, 5) for g in A.grids(7, k)]
@@ -177,4 +217,10 @@ def harnesses(tier, seed):
             for off, scl in ((1e6, 1.0), (1.7e9, 1.0), (0.0, 1e-9)):
                 judge(ctx, check_normalize, {"a": [off + scl * v for v in a], "lo": lo, "hi": hi, "path": path}, bulk=True)
 
-    return [{"name": "trend", "body": trend_body}, {"name": "shift-scale", "body": ss_body}, {"name": "normalize", "body": norm_body}]
+    def hist_body(ctx):
+        ii = ctx.choose([0, 1, 3, 5], "init")
+        ops = [ctx.choose(HIST_OPS, "op%d" % d) for d in range(3)]
+        judge(ctx, check_pointwise_in_state, {"init": ii, "ops": [list(o) for o in ops]}, calls=12,
+              nontrivial=lambda sg: sg[0] != "skipped")
+
+    return [{"name": "pointwise-in-every-state", "body": hist_body}, {"name": "trend", "body": trend_body}, {"name": "shift-scale", "body": ss_body}, {"name": "normalize", "body": norm_body}]
